@@ -252,11 +252,13 @@ func c06Broken(c *core.Ctx, idx int) {
 }
 
 // c06Semantic: programs that are invalid for a reason the grammar tables do not see.
-//  (1) PHP 5 family: a statement PHP rejects at compile time and this parser reports from its grammar
-//      actions (a trait with extends / implements, a foreach whose key is taken by reference), inserted
-//      at a top-level statement boundary of a valid PHP-mode program;
-//  (2) both families: the closing label of the LAST heredoc/nowdoc of a valid program lengthened by one
-//      label character — the label never occurs again, so the string is never closed.
+//
+//	(1) PHP 5 family: a statement PHP rejects at compile time and this parser reports from its grammar
+//	    actions (a trait with extends / implements, a foreach whose key is taken by reference), inserted
+//	    at a top-level statement boundary of a valid PHP-mode program;
+//	(2) both families: the closing label of the LAST heredoc/nowdoc of a valid program lengthened by one
+//	    label character — the label never occurs again, so the string is never closed.
+//
 // Both must deliver at least one error; the error-shape, callback and silent-parse monitors run as usual.
 var c06Semantic5 = [][]string{
 	{"trait", "Tq1", "extends", "Bq", "{", "}"},
@@ -349,6 +351,43 @@ func c06Semantic(c *core.Ctx, idx int) {
 	c.NonTrivial(src, []byte(ver))
 }
 
+// c06Delete: a mandatory operand (gen.MandatorySpans: the variable of a catch, a loop condition, the right side
+// of an assignment, the class of a new, the member name behind ->, ...) is deleted from a valid program as a
+// whole: every such program is invalid and must deliver an error.
+func c06Delete(c *core.Ctx, idx int) {
+	r := core.NewRand(c.P.Seed, "C06del", idx)
+	fam := 7
+	if r.Chance(2, 5) {
+		fam = 5
+	}
+	pc := makeProgram(r, fam, false, 6)
+	toks := pc.root.Tokens()
+	spans := gen.MandatorySpans(pc.root)
+	if len(spans) == 0 {
+		c.Inconclusive("program without a deletable mandatory operand")
+		return
+	}
+	n := c.P.Pick(4, 12)
+	for k := 0; k < n; k++ {
+		sp := spans[r.Intn(len(spans))]
+		bt := append(append([]gen.Tok{}, toks[:sp.From]...), toks[sp.To:]...)
+		mode := []int{gen.LayCanon, gen.LayMinimal, gen.LayLF, gen.LayCRLF, gen.LayMixed, gen.LayComments}[r.Intn(6)]
+		src := gen.Render(bt, mode, r.Split(fmt.Sprint("lay", k)), nil)
+		nerr, _ := c06Input(c, src, pc.ver)
+		c.Add("broken_programs_parsed", 1)
+		c.Add("mandatory_operand_deletions", 1)
+		c.Cover("edits", "delete:"+sp.Rule)
+		if nerr == 0 {
+			if pr := obs.Parse(src, pc.ver, true); pr.Panic != nil {
+				continue
+			}
+			c.Violation(fmt.Sprintf("swallowed|fam%d|delete:%s", fam, sp.Rule), fmt.Sprintf("a program made invalid by deleting the mandatory operand %s was parsed under %s without any error", sp.Rule, pc.ver), core.W(src, pc.ver).With("edit", "delete:"+sp.Rule).With("valid_program", string(gen.Render(toks, gen.LayCanon, r, nil))))
+			return
+		}
+	}
+	c.NonTrivial([]byte(pc.root.Canon()), []byte(pc.ver), []byte("del"))
+}
+
 // c06Deep: nesting depth as the hostile dimension. One nesting construct (brackets of every kind, blocks,
 // ifs, calls, closures, ternaries, prefix-operator and assignment chains) is nested n deep, n drawn from
 // round numbers, powers of two and their neighbours up to 70 000 — the sizes at which a parser stack, a
@@ -431,7 +470,7 @@ func c06Deep(c *core.Ctx, idx int) {
 func init() {
 	core.Register(&core.Check{
 		ID:   "C06",
-		Rule: "cases = known-finding witnesses ++ alternately (a) a generated valid program with 6 (quick) / 20 (thorough) independent guaranteed-breaking edits {insert unmatched closer/opener, delete one bracket, truncate after an operator, insert the operator pair '* /', append a stray quote} in PRNG layouts: >= 1 error required, (a') a valid program with a PHP 5 compile-time error reported by the grammar actions (trait with extends/implements, foreach key by reference) inserted at a top-level boundary, or with the closing label of its last heredoc lengthened: >= 1 error required, (b) a hostile G3 input, (c) every 100th case a nesting construct nested 60..70 000 deep (brackets of every kind, blocks, ifs, calls, closures, ternaries, operator chains; depths at round numbers and powers of two): the valid program must parse silently and completely, the same program with one closer removed or one opener doubled must deliver an error, and 3 (quick) / 24 (thorough) runs of the real CLI with -e -p over 200 / 800 such files whose printed error blocks must equal the errors delivered for each file alone; for every parse: shape of every delivered error, callback-vs-nil tree equality, (for a third of the inputs with errors) a nested parse run from inside the callback, and for silent parses non-nil tree + tiling + print-back; non-trivial = program whose every broken variant was reported / hostile input that delivered an error; distinct by expected structure / input bytes",
+		Rule: "cases = known-finding witnesses ++ alternately (a) a generated valid program with 6 (quick) / 20 (thorough) independent guaranteed-breaking edits {insert unmatched closer/opener, delete one bracket, truncate after an operator, insert the operator pair '* /', append a stray quote} in PRNG layouts: >= 1 error required, (a'') a valid program from which one mandatory operand is deleted as a whole (26 node.role rules: catch variable, conditions, right side of an assignment, class of new / instanceof, member names, foreach source and target, initialisers, declared names): >= 1 error required, (a') a valid program with a PHP 5 compile-time error reported by the grammar actions (trait with extends/implements, foreach key by reference) inserted at a top-level boundary, or with the closing label of its last heredoc lengthened: >= 1 error required, (b) a hostile G3 input, (c) every 100th case a nesting construct nested 60..70 000 deep (brackets of every kind, blocks, ifs, calls, closures, ternaries, operator chains; depths at round numbers and powers of two): the valid program must parse silently and completely, the same program with one closer removed or one opener doubled must deliver an error, and 3 (quick) / 24 (thorough) runs of the real CLI with -e -p over 200 / 800 such files whose printed error blocks must equal the errors delivered for each file alone; for every parse: shape of every delivered error, callback-vs-nil tree equality, (for a third of the inputs with errors) a nested parse run from inside the callback, and for silent parses non-nil tree + tiling + print-back; non-trivial = program whose every broken variant was reported / hostile input that delivered an error; distinct by expected structure / input bytes",
 		Assumptions: []string{
 			"'invalid' is only asserted for edits that are invalid by a counting argument (brackets balance in every valid program; no valid program ends in an operator; no grammar allows '* /')",
 			"an error message of the form unexpected 'X' names a single-character token whose text must be selected by the span; the close tag is delivered as ';'",
@@ -452,6 +491,10 @@ func init() {
 			}
 			if idx%8 == 1 || idx%8 == 5 {
 				c06Semantic(c, idx)
+				return
+			}
+			if idx%8 == 3 {
+				c06Delete(c, idx)
 				return
 			}
 			pc := genParseCase(c.P.Seed, "C06h", idx, 85)
